@@ -152,13 +152,14 @@ Section DetC.
     - intros r' Hr Ha. rewrite Ex. destruct (Nat.eq_dec r' r) as [->|N]; [now left|].
       destruct (J8 r' Hr Ha) as [X|(t' & X1 & X2)]; [now left|right]. exists t'.
       assert (t' <> t). { intros ->. congruence. } now rewrite (V t' H).
-    - intros t' b' Ht. destruct (F t') as (_&_&_&_&E5&_&E7&_). rewrite E5 in Ht. rewrite E7. auto.
+    - intros t' b' Ht. destruct (F t') as (_&_&_&_&E5&_&E7&_). rewrite E5 in Ht. rewrite E7. exact (J9 t' b' Ht).
     - intros t' o lb' Ht. destruct (F t') as (_&_&_&_&_&_&E7&_). rewrite E7 in Ht. destruct (J10 t' o lb' Ht) as (X1&X2&X3). split; [now apply Gc|auto].
     - exact J11.
     - exact J12.
     - intros r' Hr. rewrite Esl. auto.
     - exact J16.
-    - intros t' e f Ht. destruct (F t') as (E1&_&_&_&E5&E6&_). rewrite E6 in Ht. rewrite E1, E5, Ex. auto.
+    - intros t' e f Ht. destruct (F t') as (E1&_&_&_&E5&E6&_). rewrite E6 in Ht. rewrite E1, E5.
+      destruct (J17 t' e f Ht) as (r' & X1 & X2 & X3). exists r'. rewrite Ex. auto.
     - intros t' n Ht. destruct (F t') as (_&_&_&E4&_). rewrite E4 in Ht. apply Af. eauto.
     - intros s. rewrite <- J13. destruct s as [r' i|x i]; cbn [slot_get]; [now rewrite Esl|reflexivity].
     - intros t'. destruct (F t') as (_&_&_&_&_&_&_&E8). rewrite E8. specialize (J14 t').
